@@ -4,35 +4,43 @@ from vcommon import *
 import vrt_runner
 
 EXTRACT = os.path.join(COQ, "_extract")
-ML_BASE = ["BinNums", "Datatypes", "PeanoNat", "BinPos", "BinNat", "BinInt", "List", "CSem", "Consts", "Sites"]
-REPLAYERS = {"mu_replay": ["MuModel", "MuReplay"], "sem_replay": ["SemModel", "SemReplay"],
-             "once_replay": ["OnceModel", "OnceReplay", "rcommon"]}
+# replayer name -> (extraction file, directory it extracts into, .vo targets it needs)
+REPLAYERS = {
+    "mu_replay": ("Extract.v", "_extract", ["Model/MuReplay.vo", "Model/SemReplay.vo", "Model/OnceReplay.vo"]),
+    "sem_replay": ("Extract.v", "_extract", ["Model/MuReplay.vo", "Model/SemReplay.vo", "Model/OnceReplay.vo"]),
+    "once_replay": ("Extract.v", "_extract", ["Model/MuReplay.vo", "Model/SemReplay.vo", "Model/OnceReplay.vo"]),
+    "counter_replay": ("Extract_Counter.v", "_extract_counter", ["Model/CounterReplay.vo"]),
+}
+OTHER_MAINS = set()
 
 
 def build_replayer(name="mu_replay"):
-    """Extract the models (as regenerated for this tree) and compile replay/<name>.ml in its own directory.  Returns (exe, err)."""
-    dest = os.path.join(COQ, "_extract_" + name)
+    """Extract the model (as regenerated for this tree) and compile replay/<name>.ml in its own directory.  Returns (exe, err)."""
+    extract_v, exdir, vos = REPLAYERS[name]
+    src = os.path.join(COQ, exdir)
+    dest = os.path.join(COQ, "_rp_" + name)
     with Lock("coq"):
-        b = coq_build(["Model/MuReplay.vo", "Model/SemReplay.vo", "Model/OnceReplay.vo"])
+        b = coq_build(vos)
         if not b["ok"]:
             return None, "model does not build: " + b["log"][-800:]
-        if os.path.isdir(EXTRACT):
-            shutil.rmtree(EXTRACT)
-        os.makedirs(EXTRACT)
-        rc, out, err = sh(["coqc", "-Q", "Base", "NsyncBase", "-Q", "Gen", "NsyncGen", "-Q", "Model", "NsyncModel", "Extract.v"],
+        if os.path.isdir(src):
+            shutil.rmtree(src)
+        os.makedirs(src)
+        rc, out, err = sh(["coqc", "-Q", "Base", "NsyncBase", "-Q", "Gen", "NsyncGen", "-Q", "Model", "NsyncModel", extract_v],
                           cwd=COQ, timeout=300)
         if rc != 0:
             return None, "extraction failed: " + (err or out)[-800:]
         if os.path.isdir(dest):
             shutil.rmtree(dest)
-        shutil.copytree(EXTRACT, dest)
+        shutil.copytree(src, dest)
     shutil.copy(os.path.join(VERIF, "replay", name + ".ml"), dest)
     shutil.copy(os.path.join(VERIF, "replay", "rcommon.ml"), dest)
-    files = []
-    for m in ML_BASE + REPLAYERS[name]:
-        files += [m + ".ml"] if m == "rcommon" else [m + ".mli", m + ".ml"]
-    rc, out, err = sh(["ocamlfind", "ocamlopt", "-package", "str", "-linkpkg", "-w", "-a"] + files +
-                      [name + ".ml", "-o", name], cwd=dest, timeout=300)
+    mls = sorted(f for f in os.listdir(dest) if f.endswith(".ml") or f.endswith(".mli"))
+    rc, out, err = sh(["ocamlfind", "ocamldep", "-sort"] + mls, cwd=dest, timeout=120)
+    order = out.split()
+    if rc != 0 or not order:
+        return None, "ocamldep failed: " + (err or out)[-400:]
+    rc, out, err = sh(["ocamlfind", "ocamlopt", "-package", "str", "-linkpkg", "-w", "-a"] + order + ["-o", name], cwd=dest, timeout=300)
     if rc != 0:
         return None, "replayer does not compile: " + (err or out)[-800:]
     return os.path.join(dest, name), None
